@@ -80,6 +80,7 @@ const c05Epilogue = `
 emit("locals", s1, s2, up, #keep)
 emit("after", after())
 for i = 1, #keep do emit("kept", i, keep[i]()) end
+for i = 1, #keep do local a = keep[i]() local churn = after() local b = keep[i]() emit("keptdiff", i, b - a) end
 `
 
 type c05Prog struct {
@@ -256,8 +257,11 @@ func c05Expected(base []c05Ev, cut int, regionKind map[int]string) (cands []c05C
 			if e.Kind == "emit" && len(e.Args) >= 1 && e.Args[0] == "s:locals" {
 				w.wildFrom = 4 // #keep depends on how far the body got
 			}
-			if e.Kind == "emit" && len(e.Args) >= 1 && e.Args[0] == "s:kept" {
+			if e.Kind == "emit" && len(e.Args) >= 1 && (e.Args[0] == "s:kept" || e.Args[0] == "s:keptdiff") {
 				w.optional = true
+			}
+			if e.Kind == "emit" && len(e.Args) >= 1 && e.Args[0] == "s:kept" {
+				w.wildFrom = 2 // the value depends on how far the body got
 			}
 			want = append(want, w)
 		}
@@ -317,7 +321,7 @@ func c05Match(want []c05Want, got []c05Ev) string {
 	if gi < len(got) {
 		// trailing "kept" events are optional on both sides
 		for ; gi < len(got); gi++ {
-			if len(got[gi].Args) == 0 || got[gi].Args[0] != "s:kept" {
+			if len(got[gi].Args) == 0 || (got[gi].Args[0] != "s:kept" && !(got[gi].Args[0] == "s:keptdiff" && len(got[gi].Args) == 3 && got[gi].Args[2] == "n:1")) {
 				return fmt.Sprintf("unexpected extra host call #%d: %s(%s)", gi+1, got[gi].Kind, strings.Join(got[gi].Args, ", "))
 			}
 		}
